@@ -114,6 +114,7 @@ def normalise(j, known):
             break
         changed = False
         uset = set(unknown)
+        inlined_somewhere = set()
         for p, b in bodies.items():
             if p in uset:
                 continue   # inline leaves first: helpers are inlined into non-helpers; helper->helper chains resolve in later rounds
@@ -125,6 +126,7 @@ def normalise(j, known):
                 for bi, bb in enumerate(b["blocks"]):
                     t = bb["term"]
                     if t["k"] == "call" and _callee_path(t) in uset:
+                        inlined_somewhere.add(_callee_path(t))
                         inline_call(b, bi, bodies[_callee_path(t)])
                         progress = changed = True
                         break
@@ -136,7 +138,9 @@ def normalise(j, known):
                 if t["k"] == "call" and _callee_path(t) in uset:
                     still.add(_callee_path(t))
         for p in unknown:
-            if p not in still:
+            # a helper is dropped from the set of bodies only if it was actually analysed in the context of a caller and
+            # cannot be entered from outside the crate; a new function nobody calls (or a new public one) stays a body
+            if p not in still and p in inlined_somewhere and not bodies[p].get("reachable"):
                 # no direct call left (it may still be referenced as a function value; then it stays)
                 referenced = False
                 sj = json.dumps(p)
